@@ -58,7 +58,11 @@ def build_job(group, cases, workdir):
             vars_.append({"name": nm, "type": t})
         elif pos == "inputfield":
             nm = "g%d" % n
-            in_fields.append({"name": nm, "type": t})
+            f = {"name": nm, "type": t}
+            # a default value does not change the type of the member (schema SDL `= 7`, JSON defaultValue)
+            if n % 2 == 0 and not c["q"][-1:] == ["L"] and "L" not in c["q"] and c["base"] in ("Int", "Float"):
+                f["default"] = "7"
+            in_fields.append(f)
         elif pos == "oneof":
             nm = "h%d" % n
             one_fields.append({"name": nm, "type": t})
